@@ -168,7 +168,13 @@ def _run_whole(D):
             for k, (a, b) in enumerate(zip(lp, lt)):
                 ctx.check()
                 if a != b:
-                    ctx.violation('differs_from_serial', site, 'recorded individual %d: parallel %r, serial %r' % (k, a, b))
+                    vsite = site
+                    ind = wp.problem.individuals[k]
+                    nshare = sum(1 for o in wp.problem.individuals if o.features is ind.features)
+                    if kind == 'psoga' and nshare > 1 and a[:3] == b[:3] and a[3][:-1] == b[3][:-1] and a[4:] == b[4:]:
+                        # only the feasibility marker differs and the design shares its features dict with another one
+                        vsite = 'PSOGA.run (GA offspring share one features dict)'
+                    ctx.violation('differs_from_serial', vsite, 'recorded individual %d: parallel %r, serial %r' % (k, a, b))
                     break
         ct = sorted(tuple(c.vector) for c in wt.calls)
         cp = sorted(tuple(c.vector) for c in wp.calls)
